@@ -72,6 +72,58 @@ Proof.
 Qed.
 End Rep.
 
+(* the same with a view: the reader returns `view x` for the encoding of x *)
+Section RepView.
+Context {A B : Type}.
+Variable one : R B.
+Variable enc : A -> list Z.
+Variable view : A -> B.
+
+Lemma rrep_exact_view (l : list A) : forall fuel tail,
+  (forall x, In x l -> rspec one (enc x) (view x)) -> (length l <= length fuel)%nat ->
+  rrep fuel (zlen l) one (concat (map enc l) ++ tail) = Ok (map view l, tail).
+Proof.
+  induction l as [|x l IH]; intros fuel tail Hs Hf.
+  - destruct fuel; reflexivity.
+  - cbn [length] in Hf. destruct fuel as [|b fuel]; [cbn in Hf; lia|].
+    cbn [rrep]. rewrite zlen_cons. pose proof (zlen_nonneg l) as N.
+    destruct (1 + zlen l <=? 0) eqn:C; [lia|]. cbn [map concat]. rewrite <- app_assoc.
+    destruct (Hs x (or_introl eq_refl)) as [E _]. rewrite E.
+    replace (1 + zlen l - 1) with (zlen l) by lia.
+    rewrite IH; [reflexivity| |cbn in Hf; lia]. intros y Hy. apply Hs. now right.
+Qed.
+
+Lemma rrep_trunc_view (l : list A) : forall fuel k,
+  (forall x, In x l -> rspec one (enc x) (view x)) -> 0 <= k < zlen (concat (map enc l)) ->
+  exists e, rrep fuel (zlen l) one (ztake k (concat (map enc l))) = Err e /\ hard e.
+Proof.
+  induction l as [|x l IH]; intros fuel k Hs Hk.
+  - cbn in Hk. lia.
+  - cbn [map concat] in *. rewrite zlen_app in Hk. rewrite zlen_cons. pose proof (zlen_nonneg l) as N.
+    destruct (Hs x (or_introl eq_refl)) as [E T].
+    destruct (Z_lt_le_dec k (zlen (enc x))) as [L|L].
+    + rewrite ztake_app_le by lia. destruct (T k) as (e & Ee & He); [lia|].
+      destruct fuel; cbn [rrep]; (destruct (1 + zlen l <=? 0) eqn:C; [lia|]); rewrite Ee; eauto.
+    + rewrite ztake_app_ge by lia.
+      destruct fuel as [|b fuel]; cbn [rrep]; (destruct (1 + zlen l <=? 0) eqn:C; [lia|]); rewrite E.
+      * exists SBDF_ERROR_IO. split; [reflexivity|apply hard_io].
+      * replace (1 + zlen l - 1) with (zlen l) by lia.
+        destruct (IH fuel (k - zlen (enc x))) as (e & Ee & He); try lia.
+        -- intros y Hy. apply Hs. now right.
+        -- rewrite Ee. eauto.
+Qed.
+
+Lemma rspec_rrepeat_view (l : list A) :
+  (forall x, In x l -> rspec one (enc x) (view x)) -> (forall x, In x l -> enc x <> []) ->
+  rspec (rrepeat (zlen l) one) (concat (map enc l)) (map view l).
+Proof.
+  intros Hs Hne. split.
+  - intros tail. unfold rrepeat. apply rrep_exact_view; [exact Hs|].
+    rewrite app_length. pose proof (length_concat_ge enc l Hne). lia.
+  - intros k Hk. unfold rrepeat. now apply rrep_trunc_view.
+Qed.
+End RepView.
+
 (* ---- chunks ---- *)
 Lemma chunks_concat (sz : Z) (l : list (list Z)) :
   (forall e, In e l -> zlen e = sz) -> chunks (length l) sz (concat l) = l.
